@@ -915,6 +915,8 @@ protected:
 
   /// Mark item as unused
   void MarkAsUnused(Container& cnt, int ) {
+    if (cnt.IsBridged())   // already reformulated (or eliminated):
+      return;              // the reformulation stays in the model
     cnt.MarkAsUnused();
     ++n_bridged_or_unused_;
   }
